@@ -52,6 +52,8 @@ type Case struct {
 	CreatedClass string            `json:"createdClass,omitempty"`
 	Target       string            `json:"target"`             // memory, oci, file, pusher-only
 	PreEmpty     bool              `json:"preEmpty,omitempty"` // target already holds the empty-JSON blob
+	// FailPush n > 0: the n-th Push the packer issues fails (target fault)
+	FailPush int `json:"failPush,omitempty"`
 }
 
 // BlobRef is a caller-supplied descriptor.
@@ -61,9 +63,16 @@ type BlobRef struct {
 	Size    int               `json:"size"`
 	Present bool              `json:"present"`
 	Ann     map[string]string `json:"ann,omitempty"`
+	// Raw != "": these exact bytes (Size = len(Raw)), e.g. "{}" under a custom media type
+	Raw string `json:"raw,omitempty"`
 }
 
-func (b BlobRef) bytes() []byte { return gen.BlobBytes(b.Seed+50, b.Size) }
+func (b BlobRef) bytes() []byte {
+	if b.Raw != "" {
+		return []byte(b.Raw)
+	}
+	return gen.BlobBytes(b.Seed+50, b.Size)
+}
 func (b BlobRef) desc() ocispec.Descriptor {
 	d := ocispec.Descriptor{MediaType: b.MT, Digest: digest.FromBytes(b.bytes()), Size: int64(b.Size), Annotations: b.Ann}
 	return d
@@ -126,6 +135,11 @@ func genCase(t *rapid.T) Case {
 			mts = invalidMTs
 		}
 		b := genBlob(t, "cfg", mts)
+		if rapid.IntRange(0, 2).Draw(t, "cfgEmptyJSON") == 0 {
+			// the caller's config is the two bytes "{}" (what v1.0 packing invents,
+			// or an empty config under the caller's own media type)
+			b.Raw, b.Size = "{}", 2
+		}
 		c.Config = &b
 	}
 	if rapid.Bool().Draw(t, "hasCfgAnn") {
@@ -175,6 +189,9 @@ func genCase(t *rapid.T) Case {
 	}
 	c.Target = rapid.SampledFrom([]string{"memory", "oci", "file", "pusher-only"}).Draw(t, "target")
 	c.PreEmpty = rapid.IntRange(0, 3).Draw(t, "preEmpty") == 0
+	if rapid.IntRange(0, 5).Draw(t, "fault") == 0 {
+		c.FailPush = rapid.IntRange(1, 3).Draw(t, "failPush")
+	}
 	return c
 }
 
@@ -183,12 +200,23 @@ type recorder struct {
 	mu     sync.Mutex
 	base   content.Storage
 	pushes []ocispec.Descriptor
+	failAt int // n-th push fails
+	failed bool
 }
+
+var errInjected = errors.New("verif: injected push failure")
 
 func (r *recorder) Push(ctx context.Context, d ocispec.Descriptor, rd io.Reader) error {
 	r.mu.Lock()
 	r.pushes = append(r.pushes, d)
+	fail := r.failAt > 0 && len(r.pushes) == r.failAt
+	if fail {
+		r.failed = true
+	}
 	r.mu.Unlock()
+	if fail {
+		return fmt.Errorf("push %s: %w", d.Digest, errInjected)
+	}
 	return r.base.Push(ctx, d, rd)
 }
 
@@ -466,7 +494,7 @@ func runCase(c Case) (res vt.Result, fail *vt.Fail) {
 			return res, vt.Failf("harness/prepush", "%v", err)
 		}
 	}
-	rec := &recorder{base: base}
+	rec := &recorder{base: base, failAt: c.FailPush}
 	var pusher content.Pusher = recorderStorage{rec}
 	if c.Target == "pusher-only" {
 		pusher = rec
@@ -497,6 +525,18 @@ func runCase(c Case) (res vt.Result, fail *vt.Fail) {
 			}
 		}
 		return false
+	}
+	if rec.failed {
+		// a push the packer needed failed: the call must not report success
+		res.NonTrivial = true
+		res.Classes = append(res.Classes, fmt.Sprintf("push-%d-failed", c.FailPush))
+		if err == nil {
+			return res, vt.Failf("C19/push-failure-swallowed", "%s returned %s although push number %d (%s) failed", c.API, desc.Digest, c.FailPush, rec.pushes[c.FailPush-1].MediaType)
+		}
+		if !errors.Is(err, errInjected) && exp.reject == nil {
+			return res, vt.Failf("C19/push-failure-replaced", "%s: push number %d failed but the call returned another error: %v", c.API, c.FailPush, err)
+		}
+		return res, nil
 	}
 	if exp.reject != nil {
 		if err == nil {
